@@ -1781,12 +1781,13 @@ def ignore_comments(string):
 
     comments = [
         (mo.start(), mo.group(0))
-        for mo in re.finditer(r'(/\*|\*/|--|\n)', string)
+        for mo in re.finditer(r'(/\*|\*/|--|\n|")', string)
     ]
 
     comments.sort()
 
     in_single_line_comment = False
+    in_string = False
     multi_line_comment_depth = 0
     start_offset = 0
     non_comment_offset = 0
@@ -1816,6 +1817,12 @@ def ignore_comments(string):
                                          ' ',
                                          string[start_offset:offset]))
                     non_comment_offset = offset
+        elif in_string:
+            # Comment markers mean nothing inside a character string.
+            if kind == '"':
+                in_string = False
+        elif kind == '"':
+            in_string = True
         elif kind == '--':
             in_single_line_comment = True
             start_offset = offset
